@@ -15,6 +15,7 @@ import copy
 from sa import mutate as M
 from sa.consts import UNKNOWN
 from sa import pattern as PT
+from sa import values as VX
 from sa.ctx import Ctx
 from sa.loader import AnalysisError, FuncInfo, call_name, norm, own_nodes, parent
 from sa.ranges import has_bound, refusal_constraints
@@ -402,7 +403,9 @@ def rule_tables(ctx: Ctx, rep: Report) -> None:
     rep.ob(rule, "v:same_predicate", "_has(node.subs[0].properties, 'x')" in sz and "_has(sub.properties, 'x')" in op, where, "v: costs one opcode exactly when its child has property x, in size and in ops")
     # leaf sizes against their literal templates
     ls = PT.text(ctx.func(f"{MS}._leaf_script_size"))
-    rep.ob(rule, "leaf_sizes", "size = 33 if node.context == TAPSCRIPT else 34" in ls and "size = 3 + 21" in ls and "size = 4 + 2 + (33 if _DATA_SIZE[fragment] == 32 else 21)" in ls, where, "pk_k 33/34, pk_h 3+21, hashes 4+2+(33|21)")
+    vx = VX.of(ctx.func(f"{MS}._leaf_script_size"))
+    rep.ob(rule, "leaf_sizes", vx.returns("33 if node.context == TAPSCRIPT else 34") and vx.returns("24 if $$f == 'pk_h' else $$rest")
+           and (vx.returns("6 + (33 if _DATA_SIZE[$$f] == 32 else 21)") or vx.returns("39 if _DATA_SIZE[$$f] == 32 else 27")), where, "pk_k 33/34, pk_h 3+21, hashes 4+2+(33|21)")
 
 
 def rule_limits(ctx: Ctx, rep: Report) -> None:
